@@ -31,6 +31,11 @@ def check(ctx):
         ctx.require_at("R01-a", aexit, call, [["not self._tasks"]],
                        instance="the live-task set was found empty with no suspension point since",
                        what="scope deactivation")
+        # the same under the native-cancellation model: a Task.cancel() from asyncio code gets through the shield of the exit
+        # checkpoint; a task started by an outsider during that checkpoint must still be joined (F13)
+        ctx.require_at("R01-a", aexit, call, [["not self._tasks"]], native=True,
+                       instance="the live-task set was found empty with no suspension point since [a native cancellation may interrupt the shielded exit checkpoint]",
+                       what="scope deactivation")
 
     # ---- R01-b the wait loop cannot be left by cancellation ---------------------------------------------------
     waits = ctx.sites(aexit, "await self._on_completed_fut")
